@@ -38,7 +38,7 @@ W = "esutil/recfile/records.cpp"
 
 # rules that keep their verdict however the code is laid out (decided by term equality, effect analysis or dominance over
 # resolved calls); every other rule of this check is a template rule (vcheck.core.Check.obt)
-SEMANTIC = ('R01.1', 'R01.4', 'R01.6', 'R01.7', 'R01.3::Records::Write', 'R01.3::Records::set_file_type', 'R01.3::Recfile.write[binary]', 'R01.3::Recfile.open', 'R01.5::io.read::rec-dispatch', 'R01.5::io.write::rec-dispatch')
+SEMANTIC = ('R01.1', 'R01.4', 'R01.6', 'R01.7', 'R01.3::Records::Write', 'R01.3::Records::set_file_type', 'R01.3::Recfile.write[binary]', 'R01.2::SFile.write::', 'R01.3::Recfile.open', 'R01.3::Records::read_binary_slice::transfer-', 'R01.5::io.read::rec-dispatch', 'R01.5::io.write::rec-dispatch')
 
 
 # ---------------------------------------------------------------------------
@@ -1136,10 +1136,12 @@ def run(chk):
     header_bytes_verbatim(chk, cfun)
     size_line(chk, repo, cfun)
     payload(chk, repo, cfun)
+    row_transfers(chk, cfun)
     header_content(chk, repo, fr)
     front_ends(chk, repo)
     row_count(chk, repo)
     handle_state(chk, repo)
+    running_row_count(chk, repo)
 
 
 # ---------------------------------------------------------------------------
@@ -2389,6 +2391,384 @@ def payload(chk, repo, cfun):
 
 
 # ---------------------------------------------------------------------------
+# Row transfers of the slice reader.  Records::read_binary_slice fills the array handed in by Python (n rows of the file's dtype,
+# see the zeroed-buffer rule) with fread calls; for the rows read back to be the rows written, every transfer has to land at the
+# byte offset of the first row it carries: the transfer that follows k rows goes to <buffer of the array> + k * <row size>.
+# Decided on the clang AST by affine arithmetic over byte addresses (pointer arithmetic scaled by the pointee size, once-
+# initialised locals replaced by their initialiser, PyArray_GETPTR1 read as its expansion BYTES + i * STRIDES[0]):
+#   start     the destination of the first transfer is the buffer of the array;
+#   advance   in a loop, what one pass adds to the destination address (through the variables the pass steps) is the number
+#             of bytes the pass transfers, size * count of its fread, as a polynomial identity;
+#   amount    the rows transferred add up to the rows asked for: one fread of <row size> x <rows of the slice>, or a loop that
+#             counts the rows of each pass from 0 up to that number.
+# The row stride of the array and its item size are the row size of the file (the Python side allocates the array with the
+# file's dtype; that is another rule of this check).  Polynomials cover every row size, row count and slice; nothing is sampled.
+# ---------------------------------------------------------------------------
+
+_C_SIZEOF = {"char": 1, "unsigned char": 1, "signed char": 1, "void": 1, "bool": 1, "short": 2, "unsigned short": 2, "int": 4, "unsigned int": 4,
+             "long": 8, "unsigned long": 8, "long long": 8, "unsigned long long": 8, "float": 4, "double": 8}
+_C_LOOPS = ("ForStmt", "WhileStmt", "DoStmt")
+_C_ROWCOUNT_OF_SLICE = ("process_slice",)
+_C_TRANSPARENT = ("ImplicitCastExpr", "ParenExpr", "CStyleCastExpr", "ConstantExpr", "ExprWithCleanups", "MaterializeTemporaryExpr", "CXXStaticCastExpr",
+                  "CXXReinterpretCastExpr", "CXXConstCastExpr", "CXXFunctionalCastExpr")
+
+
+def _c_type(n):
+    t = n.get("type") or {}
+    return (t.get("desugaredQualType") or t.get("qualType") or "").strip()
+
+
+def _c_pointee_size(qt):
+    """bytes one step of a pointer of this type moves (void* as in GNU C: 1); None when it is not a pointer to a basic type"""
+    if not qt.endswith("*"):
+        return None
+    base = " ".join(w for w in qt[:-1].replace("*", " * ").split() if w not in ("const", "volatile", "restrict", "__restrict"))
+    if "*" in base:
+        return 8
+    return _C_SIZEOF.get(base)
+
+
+def _c_kids(n):
+    return [y for y in (n.get("inner") or []) if isinstance(y, dict) and y.get("kind")]
+
+
+class CAffine:
+    """C integer and address expressions as polynomials (sympy normalises polynomials, nothing else)"""
+
+    def __init__(self, inits):
+        import sympy as sp
+        self.sp = sp
+        self.inits = inits
+        self.ROW = sp.Symbol("ROWSIZE", positive=True, integer=True)
+        self.opaque = set()         # symbols standing for expressions this reading does not follow
+        self.bases = {}             # symbol -> the array whose buffer it is
+        self.rowcounts = set()      # symbols that are the number of rows of the slice asked for
+
+    def sym(self, name):
+        return self.sp.Symbol(name, integer=True)
+
+    def _opaque(self, n):
+        s = self.sym("<%s>" % cfront.render(n))
+        self.opaque.add(s)
+        return s
+
+    def ev(self, n, depth=0):
+        sp = self.sp
+        n0 = n
+        while isinstance(n, dict) and n.get("kind") in _C_TRANSPARENT and _c_kids(n):
+            n = _c_kids(n)[-1]
+        if not isinstance(n, dict) or not n.get("kind"):
+            return self._opaque(n0 if isinstance(n0, dict) else {})
+        k = n.get("kind")
+        inner = _c_kids(n)
+        if k == "IntegerLiteral":
+            try:
+                return sp.Integer(int(n.get("value")))
+            except (TypeError, ValueError):
+                return self._opaque(n)
+        if k == "DeclRefExpr":
+            rd = n.get("referencedDecl") or {}
+            nm = rd.get("name")
+            if rd.get("kind") == "VarDecl" and nm in self.inits and depth < 8:
+                return self.ev(self.inits[nm], depth + 1)
+            if rd.get("kind") in ("VarDecl", "ParmVarDecl") and nm:
+                return self.sym(nm)
+            return self._opaque(n)
+        if k == "MemberExpr":
+            if inner and cfront.strip(inner[0]).get("kind") == "CXXThisExpr" or not inner:
+                return self.ROW if n.get("name") == "mRowSize" else self.sym(n.get("name", "?"))
+            return self._opaque(n)
+        if k == "CallExpr":
+            nm = cfront.callee_name(n)
+            args = cfront.call_args(n)
+            if nm in ("PyArray_BYTES", "PyArray_DATA") and len(args) == 1:
+                s = self.sym("buffer(%s)" % cfront.render(args[0]))
+                self.bases[s] = cfront.render(args[0])
+                return s
+            if nm == "PyArray_ITEMSIZE" and len(args) == 1:
+                return self.ROW
+            if nm == "PyArray_STRIDE" and len(args) == 2 and cfront.render(args[1]) == "0":
+                return self.ROW
+        if k in ("CallExpr", "CXXMemberCallExpr"):
+            s = self._opaque(n)
+            if cfront.callee_name(n) in _C_ROWCOUNT_OF_SLICE:
+                self.rowcounts.add(s)
+            return s
+        if k == "ArraySubscriptExpr" and len(inner) == 2:
+            b = cfront.strip(inner[0])
+            if b.get("kind") == "CallExpr" and cfront.callee_name(b) == "PyArray_STRIDES" and cfront.render(inner[1]) == "0":
+                return self.ROW
+            return self._opaque(n)
+        if k == "UnaryOperator" and inner:
+            op = n.get("opcode")
+            if op in ("-", "+"):
+                v = self.ev(inner[0], depth)
+                return -v if op == "-" else v
+            if op == "&":
+                x = cfront.strip(inner[0])
+                xi = _c_kids(x)
+                if x.get("kind") == "ArraySubscriptExpr" and len(xi) == 2:       # &p[i] is p + i
+                    sz = _c_pointee_size(_c_type(xi[0]))
+                    if sz is not None:
+                        return self.ev(xi[0], depth) + sz * self.ev(xi[1], depth)
+            return self._opaque(n)
+        if k == "BinaryOperator" and len(inner) == 2 and n.get("opcode") in ("+", "-", "*"):
+            op = n["opcode"]
+            lt, rt = _c_type(inner[0]), _c_type(inner[1])
+            lp, rp = lt.endswith("*"), rt.endswith("*")
+            if (lp and rp) or (op == "*" and (lp or rp)) or (op == "-" and rp):
+                return self._opaque(n)
+            a, b = self.ev(inner[0], depth), self.ev(inner[1], depth)
+            if op == "*":
+                return a * b
+            if lp or rp:
+                sz = _c_pointee_size(lt if lp else rt)
+                if sz is None:
+                    return self._opaque(n)
+                return (a + sz * b if op == "+" else a - sz * b) if lp else (sz * a + b)
+            return a + b if op == "+" else a - b
+        return self._opaque(n)
+
+
+def _c_parents(root):
+    par = {}
+    for x in cfront.walk(root):
+        for y in x.get("inner", []) or []:
+            if isinstance(y, dict):
+                par[id(y)] = x
+    return par
+
+
+def _c_loop_parts(loop):
+    """(init, cond, inc, body) of a loop statement"""
+    inner = loop.get("inner", []) or []
+    present = lambda x: x if isinstance(x, dict) and x.get("kind") else None
+    if loop.get("kind") == "ForStmt":
+        init, _cv, cond, inc, body = (list(inner) + [{}] * 5)[:5]
+        return present(init), present(cond), present(inc), body
+    if loop.get("kind") == "WhileStmt":
+        return None, present(inner[-2]) if len(inner) >= 2 else None, None, inner[-1]
+    return None, present(inner[1]) if len(inner) > 1 else None, None, inner[0]
+
+
+def _c_writes(root):
+    """[(variable, node, kind)] for the stores to plain variables under root: assign ('=' and compound assignment), step (++ / --),
+    decl (initialised declaration)"""
+    out = []
+    for x in cfront.walk(root):
+        k = x.get("kind")
+        if k in ("BinaryOperator", "CompoundAssignOperator") and (x.get("opcode") == "=" or k == "CompoundAssignOperator"):
+            l = cfront.strip(x["inner"][0])
+            if l.get("kind") == "DeclRefExpr":
+                out.append((cfront.render(l), x, "assign"))
+        elif k == "UnaryOperator" and x.get("opcode") in ("++", "--"):
+            l = cfront.strip(x["inner"][0])
+            if l.get("kind") == "DeclRefExpr":
+                out.append((cfront.render(l), x, "step"))
+        elif k == "VarDecl" and x.get("name") and _c_kids(x):
+            out.append((x["name"], x, "decl"))
+    return out
+
+
+def _c_transfer(fn, par, allw, fr):
+    """one fread of the slice reader: ((verdict, text) for its destination, (verdict, text) for the rows it accounts for)"""
+    params = [p for p in cfront.params_of(fn) if p]
+    anc = []
+    x = fr
+    while id(x) in par:
+        x = par[id(x)]
+        anc.append(x)
+    # the variables the call can name, each with the stores made to it inside the scope that declares it (the same name declared in
+    # a sibling scope is another variable)
+    scoped = {}
+
+    def stores(v):
+        if v not in scoped:
+            scope = None
+            for a_ in anc:
+                if a_.get("kind") == "CompoundStmt":
+                    decls = [d for st in _c_kids(a_) if st.get("kind") == "DeclStmt" for d in _c_kids(st)]
+                elif a_.get("kind") == "ForStmt":
+                    init = _c_loop_parts(a_)[0]
+                    decls = _c_kids(init) if init is not None and init.get("kind") == "DeclStmt" else []
+                else:
+                    continue
+                if any(d.get("kind") == "VarDecl" and d.get("name") == v for d in decls):
+                    scope = a_
+                    break
+            inside = {id(y) for y in cfront.walk(scope)} if scope is not None else None
+            scoped[v] = [(y, kind) for w, y, kind in allw if w == v and (inside is None or id(y) in inside)]
+        return scoped[v]
+    inits = {}
+    for v in {w for w, _, _ in allw}:
+        ws = stores(v)
+        if len(ws) == 1 and ws[0][1] == "decl" and cfront.strip(_c_kids(ws[0][0])[-1]).get("kind") != "CXXConstructExpr":
+            inits[v] = _c_kids(ws[0][0])[-1]
+    loops = [a_ for a_ in anc if a_.get("kind") in _C_LOOPS]
+    A = CAffine(inits)
+    sp = A.sp
+    dst, size, count = (sp.expand(A.ev(a_)) for a_ in cfront.call_args(fr)[:3])
+    nbytes = sp.expand(size * count)
+    shown = "`%s`: %s bytes to %s" % (cfront.render(fr), nbytes, dst)
+    if len(loops) > 1:
+        return (None, shown + ": the call sits in nested loops"), (None, shown + ": the call sits in nested loops")
+    first, delta = {}, {}           # stepping variable -> its value at the first transfer, what one pass adds to it
+    cond, cl, cr, cop = None, None, None, None
+    stepped = set()                 # names stored to inside the loop
+    why = ""
+    if loops:
+        loop = loops[0]
+        init, cond, inc, lbody = _c_loop_parts(loop)
+        stmts = _c_kids(lbody) if lbody.get("kind") == "CompoundStmt" else [lbody]
+        inloop = {id(y) for part in (cond, inc, lbody) if part for y in cfront.walk(part)}
+        ininit = {id(y) for y in cfront.walk(init)} if init is not None else set()
+        inwhole = {id(y) for y in cfront.walk(loop)}
+
+        def top_index(x):
+            """index of the statement of the loop body whose own expression holds x (for an `if`: its condition, not its arms);
+            len(stmts) for the increment of a for loop; None when x is nested deeper (not evaluated exactly once per pass)"""
+            if inc is not None and id(x) in {id(y) for y in cfront.walk(inc)}:
+                return len(stmts)
+            for i, s_ in enumerate(stmts):
+                if s_.get("kind") == "IfStmt":
+                    own = _c_kids(s_)[0] if _c_kids(s_) else None
+                elif s_.get("kind") in _C_LOOPS + ("SwitchStmt", "CXXTryStmt", "CompoundStmt"):
+                    own = None
+                else:
+                    own = s_
+                if own is not None and id(x) in {id(y) for y in cfront.walk(own)}:
+                    return i
+            return None
+        ifr = top_index(fr)
+        if ifr is None:
+            why = "the call is not made exactly once per pass of its loop"
+        cn = cfront.strip(cond) if cond is not None else {}
+        if cn.get("kind") == "BinaryOperator" and cn.get("opcode") in ("<", ">", "!=") and len(_c_kids(cn)) == 2:
+            cop = cn["opcode"]
+            cl, cr = (sp.expand(A.ev(y)) for y in _c_kids(cn))
+            if cop == ">":
+                cl, cr, cop = cr, cl, "<"
+        used = dst.free_symbols | size.free_symbols | count.free_symbols | (cl.free_symbols | cr.free_symbols if cl is not None else set())
+        stepped = {v for v, y, kind in allw if id(y) in inloop and kind != "decl"}
+        for v in sorted(stepped):
+            vs = A.sym(v)
+            if vs not in used:
+                continue
+            inside = [(y, kind) for y, kind in stores(v) if id(y) in inloop]
+            outside = [(y, kind) for y, kind in stores(v) if id(y) not in inloop]
+            if len(inside) != 1 or len(outside) != 1 or top_index(inside[0][0]) is None:
+                continue                # not moved by one step per pass: it keeps its name, nothing is derived from it
+            y, kind = inside[0]
+            vt = _c_type(_c_kids(y)[0]) if _c_kids(y) else ""
+            sc = _c_pointee_size(vt) if vt.endswith("*") else 1
+            if sc is None:
+                continue
+            if kind == "step":
+                d = sp.Integer(sc if y.get("opcode") == "++" else -sc)
+            elif y.get("kind") == "CompoundAssignOperator" and y.get("opcode") in ("+=", "-="):
+                d = sp.expand(sc * A.ev(_c_kids(y)[1]))
+                d = d if y["opcode"] == "+=" else -d
+            elif y.get("opcode") == "=":
+                d = sp.expand(A.ev(_c_kids(y)[1]) - vs)         # an address (or an integer) already
+                if vs in d.free_symbols:
+                    continue
+            else:
+                continue
+            o, okind = outside[0]
+            if id(o) in inwhole and id(o) not in ininit:
+                continue
+            if okind == "decl":
+                start = A.ev(_c_kids(o)[-1])
+            elif o.get("opcode") == "=" and o.get("kind") == "BinaryOperator":
+                start = A.ev(_c_kids(o)[1])
+            else:
+                continue
+            iu = top_index(y)
+            if ifr is not None:
+                # the names the step is written with must mean the same at the call and at the step
+                lo, hi = min(ifr, iu), max(ifr, iu)
+                between = {id(z) for s_ in stmts[lo + 1:hi] for z in cfront.walk(s_)}
+                if any(A.sym(w) in d.free_symbols and id(z) in between for w, z, _ in allw):
+                    why = "what %s is stepped by is changed between the call and the step" % v
+            delta[vs] = d
+            first[vs] = sp.expand(start + (d if (ifr is not None and iu < ifr) else 0))
+    # ---- destination
+    moving = [v for v in dst.free_symbols if v in delta]
+    lost = sorted(str(s_) for s_ in dst.free_symbols if str(s_) in stepped and s_ not in delta)
+    d0 = sp.expand(dst.subs(first, simultaneous=True))
+    bases = [s_ for s_ in d0.free_symbols if s_ in A.bases]
+    seen_syms = dst.free_symbols | d0.free_symbols | nbytes.free_symbols
+    for v in moving:
+        seen_syms = seen_syms | delta[v].free_symbols
+    followed = not ((A.opaque - A.rowcounts) & seen_syms)
+    if why or lost:
+        dres = (None, "%s: %s" % (shown, why or "how %s changes from pass to pass was not followed" % ", ".join(lost)))
+    elif len(bases) != 1 or A.bases[bases[0]] not in params:
+        dres = (None, "%s: the destination was not recognised as an offset into the buffer of the array handed in" % shown)
+    else:
+        ok, msg = True, ""
+        off0 = sp.expand(d0 - bases[0])
+        if off0 != 0:
+            ok = False if followed else None
+            msg = "the first transfer goes to byte %s of the array, not to its first row" % off0
+        elif loops:
+            adv = sp.expand(dst.subs({v: v + delta[v] for v in moving}, simultaneous=True) - dst)
+            if sp.expand(adv - nbytes) != 0:
+                ok = False if followed else None
+                msg = "a pass of the loop transfers %s bytes but moves the destination by %s byte(s) (%s), so the passes after the first do not land where their rows belong" % (
+                    nbytes, adv, ", ".join("%s is stepped by %s" % (v, delta[v]) for v in moving) or "nothing it is computed from is stepped")
+        dres = (ok, shown + (": " + msg if msg else ""))
+    # ---- amount
+    alien = A.opaque - A.rowcounts
+    if not loops:
+        N = [s_ for s_ in nbytes.free_symbols if s_ in A.rowcounts]
+        if len(N) == 1 and sp.expand(nbytes - A.ROW * N[0]) == 0:
+            ares = (True, shown)
+        elif N and not (alien & nbytes.free_symbols):
+            ares = (False, "%s: that is not <row size> x <rows of the slice> = %s" % (shown, sp.expand(A.ROW * N[0])))
+        else:
+            ares = (None, "%s: the number of rows of the slice (%s) was not recognised in it" % (shown, "/".join(_C_ROWCOUNT_OF_SLICE)))
+    else:
+        ares = (None, shown + ": the loop condition was not recognised as <rows transferred so far> < <rows of the slice>")
+        if not why and cl is not None:
+            if cop == "!=" and cl in A.rowcounts:
+                cl, cr = cr, cl
+            N = [s_ for s_ in cr.free_symbols if s_ in A.rowcounts]
+            if cl in delta and len(N) == 1:
+                per = sp.expand(delta[cl] * A.ROW - nbytes)
+                if per == 0 and first[cl] == 0 and cr == N[0]:
+                    ares = (True, shown)
+                elif not (alien & (per.free_symbols | first[cl].free_symbols | cr.free_symbols)):
+                    ares = (False, "%s: the loop counts %s per pass from %s up to %s while a pass transfers %s bytes: the rows transferred do not add up to the rows of the slice (%s)" % (
+                        shown, delta[cl], first[cl], cr, nbytes, N[0]))
+    return dres, ares
+
+
+def row_transfers(chk, cfun):
+    R = "R01.3"
+    name = "Records::read_binary_slice"
+    fn = cfun[name]
+    chk.analysed_unit(name)
+    body = cfront.body_of(fn)
+    par = _c_parents(body)
+    allw = _c_writes(body)
+    freads = [c for c in cfront.calls_in(body) if cfront.callee_name(c) == "fread" and len(cfront.call_args(c)) == 4 and "mFptr" in _c_refs_members(cfront.call_args(c)[3])]
+    res = [_c_transfer(fn, par, allw, fr) for fr in freads]
+
+    def verdict(items):
+        vs = [v for v, _ in items]
+        return None if not vs else (False if False in vs else (None if None in vs else True))
+    text = lambda items: "; ".join(t for v, t in items if v is False) or "; ".join(t for v, t in items if v is None) or "; ".join(t for _, t in items) or \
+        "no fread on mFptr was found in the function"
+    dest, amount = [d for d, _ in res], [a_ for _, a_ in res]
+    chk.ob(R, name + "::transfer-destination", verdict(dest), cwhere(fn),
+           "every fread of the slice reader lands at the byte offset of the first row it carries: the first transfer at the buffer of the array handed in, and in a loop the "
+           "destination moves per pass by exactly the bytes the pass transfers (row stride of the array = row size of the file) -- %s" % text(dest))
+    chk.ob(R, name + "::transfer-amount", verdict(amount), cwhere(fn),
+           "the rows transferred add up to the rows of the slice: one fread of <row size> x <rows>, or a loop counting the rows of each pass from 0 up to that number -- %s" % text(amount))
+
+
+# ---------------------------------------------------------------------------
 # Value transformers.  The header read back must hold every user key with an EQUAL value, so whatever sits between the user's
 # dict and pprint.pformat (and between eval and the caller) has to map every value of the property's quantifier -- None, bool,
 # int, float, str, bytes and lists / tuples / dicts of them, nested -- to an equal value.  A helper of the package applied to
@@ -3619,6 +3999,585 @@ def handle_state(chk, repo):
     chk.ob(R, "SFile.open::first-write-state-reset", ok, op.where(),
            "the state by which the write path tells the first write to a file from an append -- %s -- is assigned afresh (None, or what was read from the file being opened) on every "
            "path through open() that creates the record reader/writer: open() is public and re-opens a used handle on another file%s" % (users, why))
+
+
+# ---------------------------------------------------------------------------
+# The running row count of an open handle (R01.2, append).  A self-describing file can be written in pieces through one handle:
+# the first SFile.write puts the header, every later one only rewrites the SIZE line (Records::update_row_count) with
+# <rows already in the file> + <rows of the piece>.  <rows already in the file> is state of the handle, so for the header to
+# count the rows written, whatever the append path reads that number from has to hold the number it has just put on the SIZE
+# line when write() returns (induction over the writes of a session), and has to hold the rows of the data after the first
+# write.  Decided by a path-sensitive symbolic execution of SFile.write over the attributes of the handle: private methods
+# that store to the handle or reach the two C++ header calls are executed with their parameters bound, the others are skipped;
+# values are terms over the parameters of write() and the values the attributes had on entry (`old`), loops and handlers forget
+# what they may store; integer terms are compared as linear forms.  No value is sampled: the terms stand for every data
+# array and every count.
+# ---------------------------------------------------------------------------
+
+_COUNT_SINK = "update_row_count"
+_HEADER_SINK = "write_header_and_update_offset"
+_PURE_BUILTINS = ("len", "int", "abs")
+
+
+class _GiveUp(Exception):
+    pass
+
+
+class _HState:
+    __slots__ = ("loc", "att", "ev")
+
+    def __init__(self, loc=None, att=None, ev=()):
+        self.loc = dict(loc or {})
+        self.att = dict(att or {})
+        self.ev = tuple(ev)
+
+    def copy(self):
+        return _HState(self.loc, self.att, self.ev)
+
+    def key(self):
+        return (repr(sorted(self.loc.items())), repr(sorted(self.att.items(), key=repr)), repr(self.ev))
+
+
+def _dedupe(states, cap=192):
+    out, seen = [], set()
+    for s_ in states:
+        k = s_.key()
+        if k not in seen:
+            seen.add(k)
+            out.append(s_)
+    if len(out) > cap:
+        raise _GiveUp("more than %d distinct paths" % cap)
+    return out
+
+
+def lin(t):
+    """(constant, {atom: coefficient}) of an integer term built with + - and multiplication by literals; other terms are atoms"""
+    if t[0] == "lit" and isinstance(t[1], int) and not isinstance(t[1], bool):
+        return t[1], {}
+    if t[0] == "op" and t[1] in ("+", "-"):
+        (c1, m1), (c2, m2) = lin(t[2]), lin(t[3])
+        sg = 1 if t[1] == "+" else -1
+        m = dict(m1)
+        for a_, k in m2.items():
+            m[a_] = m.get(a_, 0) + sg * k
+        return c1 + sg * c2, {a_: k for a_, k in m.items() if k}
+    if t[0] == "op" and t[1] == "*":
+        for x, y in ((t[2], t[3]), (t[3], t[2])):
+            if x[0] == "lit" and isinstance(x[1], int) and not isinstance(x[1], bool):
+                c, m = lin(y)
+                return c * x[1], {a_: k * x[1] for a_, k in m.items() if k * x[1]}
+    return 0, {t: 1}
+
+
+def _has_unknown(t):
+    return any(isinstance(x, tuple) and x and x[0] == "unk" for x in subterms(t))
+
+
+def _show_loc(L):
+    return "self.%s" % L[1] if L[0] == "a" else "self.%s[%r]" % (L[1], L[2])
+
+
+def showh(t):
+    if t[0] == "old":
+        return "<%s on entry>" % _show_loc(t[1])
+    if t[0] == "op":
+        return "%s %s %s" % (showh(t[2]), t[1], showh(t[3]))
+    if t[0] == "attr":
+        return "%s.%s" % (showh(t[1]), t[2])
+    if t[0] == "param":
+        return t[1]
+    if t[0] == "lit":
+        return repr(t[1])
+    if t[0] == "call":
+        return "%s(%s)" % (t[1], ", ".join(showh(a_) for a_ in t[2]))
+    if t[0] == "sub":
+        return "%s[%s]" % (showh(t[1]), showh(t[2]))
+    if t[0] == "unk":
+        return "<not followed>"
+    return show(t) if t[0] in ("self", "glob") else str(t[0])
+
+
+class HandleExec:
+    def __init__(self, repo):
+        self.repo = repo
+        self._n = 0
+        self._rel = {}
+        self.sink_where = {}
+
+    def unk(self):
+        self._n += 1
+        return ("unk", self._n)
+
+    # -- which private methods matter -------------------------------------
+    def method_of(self, fi, c):
+        sn = _selfname(fi)
+        if sn is not None and _self_attr(c.func, sn) is not None and fi.cls:
+            return self.repo.funcs.get("%s.%s.%s" % (fi.module.name, fi.cls, c.func.attr))
+        return None
+
+    @staticmethod
+    def sink(c):
+        return c.func.attr if isinstance(c.func, ast.Attribute) and c.func.attr in (_COUNT_SINK, _HEADER_SINK) else None
+
+    def relevant(self, fi, _seen=None):
+        """does a call of the method store to the handle or reach one of the two header calls"""
+        if fi.qualname in self._rel:
+            return self._rel[fi.qualname]
+        seen = _seen if _seen is not None else set()
+        if fi.qualname in seen:
+            return False
+        seen.add(fi.qualname)
+        sn = _selfname(fi)
+        hit = False
+        for x in walk_no_nested(fi.node):
+            if isinstance(x, (ast.Attribute, ast.Subscript)) and isinstance(x.ctx, (ast.Store, ast.Del)):
+                b = x
+                while isinstance(b, (ast.Attribute, ast.Subscript)):
+                    b = b.value
+                if isinstance(b, ast.Name) and b.id == sn:
+                    hit = True
+            elif isinstance(x, ast.Call):
+                g = self.method_of(fi, x)
+                if self.sink(x) or (g is not None and self.relevant(g, seen)):
+                    hit = True
+                elif g is None and self.escapes(x, sn):
+                    hit = True
+        if _seen is None:
+            self._rel[fi.qualname] = hit
+        return hit
+
+    @staticmethod
+    def escapes(c, sn):
+        """the handle itself is handed to something (setattr, a function of the module ...)"""
+        if isinstance(c.func, ast.Name) and c.func.id in _READS_ONLY:
+            return False
+        return any(isinstance(a_, ast.Name) and a_.id == sn for a_ in list(c.args) + [k.value for k in c.keywords]) or \
+            any(isinstance(y, ast.Attribute) and y.attr == "__dict__" and isinstance(y.value, ast.Name) and y.value.id == sn for y in ast.walk(c))
+
+    # -- expressions ------------------------------------------------------
+    def cur(self, st, L):
+        if L in st.att:
+            return st.att[L]
+        if L[0] == "k" and ("a", L[1]) in st.att:
+            return ("sub", st.att[("a", L[1])], lit(L[2]))
+        return ("old", L)
+
+    def loc_of(self, e, st, sn):
+        """the handle location an expression names: self.a, self.h['key'], alias['key'] with alias = self.h"""
+        a_ = _self_attr(e, sn)
+        if a_ is not None:
+            return ("a", a_)
+        if isinstance(e, ast.Subscript) and isinstance(e.slice, ast.Constant) and isinstance(e.slice.value, (str, int)):
+            h = _self_attr(e.value, sn)
+            if h is None and isinstance(e.value, ast.Name) and e.value.id in st.loc:
+                t = st.loc[e.value.id]
+                for L, v in list(st.att.items()) + [(t[1], t)] * (t[0] == "old"):
+                    if L[0] == "a" and v == t and t[0] in ("old", "unk", "mk"):
+                        h = L[1]
+            if h is not None:
+                return ("k", h, e.slice.value)
+        return None
+
+    def ev(self, e, st, fi):
+        sn = _selfname(fi)
+        if isinstance(e, ast.Constant):
+            return lit(e.value)
+        if isinstance(e, ast.Name):
+            if e.id == sn:
+                return SELF
+            if e.id in st.loc:
+                return st.loc[e.id]
+            return ("glob", e.id)
+        L = self.loc_of(e, st, sn) if isinstance(e, (ast.Attribute, ast.Subscript)) else None
+        if L is not None:
+            return self.cur(st, L)
+        if isinstance(e, ast.Attribute):
+            return ("attr", self.ev(e.value, st, fi), e.attr)
+        if isinstance(e, ast.Subscript) and not isinstance(e.slice, ast.Slice):
+            return ("sub", self.ev(e.value, st, fi), self.ev(e.slice, st, fi))
+        if isinstance(e, ast.BinOp) and type(e.op) in _BINOP:
+            a_, b = self.ev(e.left, st, fi), self.ev(e.right, st, fi)
+            return ("op", _BINOP[type(e.op)], a_, b)
+        if isinstance(e, ast.UnaryOp) and isinstance(e.op, ast.USub):
+            return ("op", "-", lit(0), self.ev(e.operand, st, fi))
+        if isinstance(e, ast.Call) and isinstance(e.func, ast.Name) and e.func.id in _PURE_BUILTINS and e.func.id not in st.loc \
+                and e.func.id not in fi.module.funcs and e.func.id not in fi.module.imports and not e.keywords and not any(isinstance(a_, ast.Starred) for a_ in e.args):
+            args = tuple(self.ev(a_, st, fi) for a_ in e.args)
+            if e.func.id == "int" and len(args) == 1 and (args[0][0] in ("op", "old") or (args[0][0] == "attr" and args[0][2] == "size")):
+                return args[0]          # an integer already: a count kept on the handle, a sum of counts, the size of an array
+            return ("call", e.func.id, args)
+        if isinstance(e, ast.NamedExpr):
+            raise _GiveUp("assignment expression")
+        return self.unk()
+
+    def truth(self, e, st, fi):
+        """True / False when the test is decided by the state, None otherwise"""
+        if isinstance(e, ast.UnaryOp) and isinstance(e.op, ast.Not):
+            v = self.truth(e.operand, st, fi)
+            return None if v is None else not v
+        if isinstance(e, ast.Compare) and len(e.ops) == 1 and isinstance(e.ops[0], (ast.Is, ast.IsNot, ast.Eq, ast.NotEq)):
+            a_, b = self.ev(e.left, st, fi), self.ev(e.comparators[0], st, fi)
+            if a_[0] == "lit" and b[0] == "lit":
+                same = (a_[1] is b[1]) if isinstance(e.ops[0], (ast.Is, ast.IsNot)) else (a_[1] == b[1] and type(a_[1]) is type(b[1]))
+                if isinstance(e.ops[0], (ast.Is, ast.IsNot)) and not (a_[1] is None or b[1] is None):
+                    return None
+                return same if isinstance(e.ops[0], (ast.Is, ast.Eq)) else not same
+            return None
+        if isinstance(e, ast.Constant):
+            return bool(e.value)
+        return None
+
+    # -- statements -------------------------------------------------------
+    def check_nested(self, node, fi, allowed):
+        """calls that matter may only stand as a whole statement or as the whole right-hand side"""
+        for x in ast.walk(node):
+            if isinstance(x, ast.Call) and x is not allowed:
+                g = self.method_of(fi, x)
+                if self.sink(x) or (g is not None and self.relevant(g)):
+                    raise _GiveUp("the call %s is part of a larger expression" % norm(x)[:60])
+
+    def havoc(self, st, stmts, fi):
+        """forget what the statements may store: locals they assign, and every attribute of the handle when they store to it or make
+        a call that matters"""
+        sn = _selfname(fi)
+        st = st.copy()
+        touched = False
+        for s_ in stmts:
+            for x in ast.walk(s_):
+                if isinstance(x, ast.Name) and isinstance(x.ctx, (ast.Store, ast.Del)):
+                    st.loc[x.id] = self.unk()
+                elif isinstance(x, (ast.Attribute, ast.Subscript)) and isinstance(x.ctx, (ast.Store, ast.Del)):
+                    b = x
+                    while isinstance(b, (ast.Attribute, ast.Subscript)):
+                        b = b.value
+                    if isinstance(b, ast.Name) and (b.id == sn or b.id in st.loc):
+                        touched = True
+                elif isinstance(x, ast.Call):
+                    g = self.method_of(fi, x)
+                    if self.sink(x):
+                        raise _GiveUp("a header call inside a loop or handler")
+                    if (g is not None and self.relevant(g)) or (g is None and self.escapes(x, sn)):
+                        touched = True
+        if touched:
+            self.forget_handle(st)
+        return st
+
+    def forget_handle(self, st):
+        names = {L for L in st.att} | {t[1] for t in self._olds(st)}
+        for L in names:
+            st.att[L] = self.unk()
+        st.att[("*",)] = self.unk()
+
+    def _olds(self, st):
+        out = []
+        for v in list(st.loc.values()) + list(st.att.values()) + [x for ev_ in st.ev for x in ev_[1:] if isinstance(x, tuple)]:
+            out.extend(x for x in subterms(v) if isinstance(x, tuple) and x and x[0] == "old")
+        return out
+
+    def store(self, st, target, val, fi):
+        sn = _selfname(fi)
+        if isinstance(target, ast.Name):
+            st.loc[target.id] = val
+            return
+        if isinstance(target, (ast.Tuple, ast.List)):
+            for y in rules._flat_targets(target):
+                self.store(st, y, self.unk(), fi)
+            return
+        L = self.loc_of(target, st, sn)
+        if L is not None:
+            st.att[L] = val
+            if L[0] == "a":
+                for M in [M for M in st.att if M[0] == "k" and M[1] == L[1]]:
+                    del st.att[M]
+            return
+        b = target
+        while isinstance(b, (ast.Attribute, ast.Subscript)):
+            b = b.value
+        if isinstance(b, ast.Name) and b.id == sn:
+            # a store below an attribute of the handle that is not followed (self.h[k] with a computed key ...)
+            top = target
+            while not (isinstance(top, ast.Attribute) and isinstance(top.value, ast.Name) and top.value.id == sn):
+                top = top.value
+            for M in [M for M in st.att if M[0] == "k" and M[1] == top.attr]:
+                st.att[M] = self.unk()
+            st.att[("k*", top.attr)] = self.unk()
+
+    def call_stmt(self, states, c, fi, depth):
+        """states after the call (a whole statement or a whole right-hand side): [(state, value)]"""
+        sn = _selfname(fi)
+        g = self.method_of(fi, c)
+        out = []
+        if g is not None and self.relevant(g):
+            if depth >= 5:
+                raise _GiveUp("helpers nested deeper than 5")
+            ps = [p for p in g.params if not p.startswith("*")][1:]
+            if any(p.startswith("*") for p in g.params) or any(isinstance(a_, ast.Starred) for a_ in c.args) or any(k.arg is None for k in c.keywords) or len(c.args) > len(ps):
+                raise _GiveUp("the arguments of %s were not bound" % g.name)
+            for st in states:
+                b = {p: self.ev(a_, st, fi) for p, a_ in zip(ps, c.args)}
+                for k in c.keywords:
+                    if k.arg not in ps or k.arg in b:
+                        raise _GiveUp("the arguments of %s were not bound" % g.name)
+                    b[k.arg] = self.ev(k.value, st, fi)
+                for p in ps:
+                    if p not in b:
+                        d = g.defaults.get(p)
+                        b[p] = self.ev(d, _HState(), g) if d is not None else self.unk()
+                inner = _HState(b, st.att, st.ev)
+                for s2, v in self.run_function(g, inner, depth + 1):
+                    out.append((_HState(st.loc, s2.att, s2.ev), v))
+            return out
+        kind = self.sink(c)
+        for st in states:
+            st = st.copy()
+            if kind == _COUNT_SINK:
+                t = self.ev(c.args[0], st, fi) if len(c.args) == 1 and not c.keywords else self.unk()
+                st.ev = st.ev + (("count", t, fi.qualname, c.lineno),)
+                self.sink_where[_COUNT_SINK] = fi
+            elif kind == _HEADER_SINK:
+                st.ev = st.ev + (("header", fi.qualname, c.lineno),)
+                self.sink_where[_HEADER_SINK] = fi
+            elif g is None and self.escapes(c, sn):
+                if isinstance(c.func, ast.Name) and c.func.id == "setattr" and len(c.args) == 3 and isinstance(c.args[1], ast.Constant) and isinstance(c.args[1].value, str):
+                    st.att[("a", c.args[1].value)] = self.ev(c.args[2], st, fi)
+                else:
+                    self.forget_handle(st)
+            out.append((st, self.unk()))
+        return out
+
+    def run_function(self, fi, st, depth):
+        """[(state, returned value)] at the normal exits of the method entered in state st"""
+        normal, rets, brk, cont = self.block(fi.node.body, [st], fi, depth)
+        if brk or cont:
+            raise _GiveUp("break / continue outside a loop")
+        return [(s_, NONE) for s_ in normal] + rets
+
+    def block(self, stmts, states, fi, depth):
+        rets, brk, cont = [], [], []
+        for s_ in stmts:
+            if not states:
+                break
+            states, r, b, c = self.stmt(s_, states, fi, depth)
+            states = _dedupe(states)
+            rets += r
+            brk += b
+            cont += c
+        return states, rets, brk, cont
+
+    def stmt(self, s_, states, fi, depth):
+        sn = _selfname(fi)
+        if isinstance(s_, ast.Expr):
+            if isinstance(s_.value, ast.Call):
+                self.check_nested(s_.value, fi, s_.value)
+                return [st for st, _ in self.call_stmt(states, s_.value, fi, depth)], [], [], []
+            self.check_nested(s_.value, fi, None)
+            return states, [], [], []
+        if isinstance(s_, (ast.Assign, ast.AnnAssign)):
+            value = s_.value
+            targets = s_.targets if isinstance(s_, ast.Assign) else [s_.target]
+            if value is None:
+                return states, [], [], []
+            g = self.method_of(fi, value) if isinstance(value, ast.Call) else None
+            if isinstance(value, ast.Call) and (self.sink(value) or (g is not None and self.relevant(g)) or (g is None and self.escapes(value, sn))):
+                self.check_nested(value, fi, value)
+                pairs = self.call_stmt(states, value, fi, depth)
+            else:
+                self.check_nested(value, fi, None)
+                pairs = [(st.copy(), self.ev(value, st, fi)) for st in states]
+            out = []
+            for st, v in pairs:
+                for t in targets:
+                    self.store(st, t, v, fi)
+                out.append(st)
+            return out, [], [], []
+        if isinstance(s_, ast.AugAssign):
+            self.check_nested(s_.value, fi, None)
+            out = []
+            for st in states:
+                st = st.copy()
+                cur = self.ev(s_.target, st, fi)
+                v = ("op", _BINOP[type(s_.op)], cur, self.ev(s_.value, st, fi)) if type(s_.op) in _BINOP else self.unk()
+                self.store(st, s_.target, v, fi)
+                out.append(st)
+            return out, [], [], []
+        if isinstance(s_, ast.Return):
+            if s_.value is None:
+                return [], [(st, NONE) for st in states], [], []
+            g = self.method_of(fi, s_.value) if isinstance(s_.value, ast.Call) else None
+            if isinstance(s_.value, ast.Call) and (self.sink(s_.value) or (g is not None and self.relevant(g))):
+                self.check_nested(s_.value, fi, s_.value)
+                return [], self.call_stmt(states, s_.value, fi, depth), [], []
+            self.check_nested(s_.value, fi, None)
+            return [], [(st, self.ev(s_.value, st, fi)) for st in states], [], []
+        if isinstance(s_, ast.Raise):
+            return [], [], [], []
+        if isinstance(s_, ast.If):
+            self.check_nested(s_.test, fi, None)
+            yes, no = [], []
+            for st in states:
+                v = self.truth(s_.test, st, fi)
+                if v is not False:
+                    yes.append(st)
+                if v is not True:
+                    no.append(st)
+            a_ = self.block(s_.body, yes, fi, depth) if yes else ([], [], [], [])
+            b = self.block(s_.orelse, no, fi, depth) if no else ([], [], [], [])
+            return tuple(x + y for x, y in zip(a_, b))
+        if isinstance(s_, (ast.For, ast.While, ast.AsyncFor)):
+            self.check_nested(s_.test if isinstance(s_, ast.While) else s_.iter, fi, None)
+            inside = [self.havoc(st, [s_], fi) for st in states]
+            n, r, b, c = self.block(s_.body, inside, fi, depth)
+            after = [self.havoc(st, [s_], fi) for st in n + b + c]
+            zero = list(states)
+            if s_.orelse:
+                n2, r2, b2, c2 = self.block(s_.orelse, zero + after, fi, depth)
+                return n2, r + r2, b2, c2
+            return zero + after, r, [], []
+        if isinstance(s_, ast.Break):
+            return [], [], list(states), []
+        if isinstance(s_, ast.Continue):
+            return [], [], [], list(states)
+        if isinstance(s_, (ast.With, ast.AsyncWith)):
+            out = []
+            for st in states:
+                st = st.copy()
+                for it in s_.items:
+                    self.check_nested(it.context_expr, fi, None)
+                    if it.optional_vars is not None:
+                        self.store(st, it.optional_vars, self.unk(), fi)
+                out.append(st)
+            return self.block(s_.body, out, fi, depth)
+        if isinstance(s_, ast.Try):
+            n, r, b, c = self.block(s_.body, states, fi, depth)
+            if s_.orelse:
+                n, r2, b2, c2 = self.block(s_.orelse, n, fi, depth)
+                r, b, c = r + r2, b + b2, c + c2
+            for h in s_.handlers:
+                hs = [self.havoc(st, s_.body, fi) for st in states]
+                for st in hs:
+                    if h.name:
+                        st.loc[h.name] = self.unk()
+                n2, r2, b2, c2 = self.block(h.body, hs, fi, depth)
+                n, r, b, c = n + n2, r + r2, b + b2, c + c2
+            if s_.finalbody:
+                n, r3, b3, c3 = self.block(s_.finalbody, n, fi, depth)
+                if any(isinstance(x, (ast.Return, ast.Break, ast.Continue)) for f_ in s_.finalbody for x in ast.walk(f_)):
+                    raise _GiveUp("a finally block that leaves the function")
+                # what a finally block stores also holds on the paths that return from inside the try
+                r = [(self.havoc(st, s_.finalbody, fi), v) for st, v in r] + r3
+            return n, r, b, c
+        if isinstance(s_, ast.Delete):
+            out = []
+            for st in states:
+                st = st.copy()
+                for t in s_.targets:
+                    self.store(st, t, self.unk(), fi)
+                out.append(st)
+            return out, [], [], []
+        if isinstance(s_, (ast.Pass, ast.Assert, ast.Import, ast.ImportFrom, ast.Global, ast.Nonlocal, ast.FunctionDef, ast.ClassDef, ast.AsyncFunctionDef)):
+            if isinstance(s_, ast.Assert):
+                self.check_nested(s_, fi, None)
+            return states, [], [], []
+        raise _GiveUp("statement %s" % type(s_).__name__)
+
+
+def _rows_of(t, data):
+    """is the term the number of rows of the (1-d) array handed to write(): data.size, len(data), data.shape[0]"""
+    return t in (("attr", data, "size"), ("call", "len", (data,)), ("sub", ("attr", data, "shape"), lit(0)))
+
+
+def running_row_count(chk, repo):
+    R = "R01.2"
+    wr = repo.func("esutil.sfile.SFile.write")
+    chk.analysed_unit(wr.qualname)
+    ka, kf = "SFile.write::append-keeps-running-row-count", "SFile.write::first-write-records-row-count"
+    what_a = "when write() returns from an append, whatever the append path took the number of rows already in the file from holds the number it has just put on the SIZE line " \
+             "(%s(<rows before> + <rows of the data>)), so that the next append of the session starts from the rows actually written" % _COUNT_SINK
+    what_f = "when write() returns from the first write to a file, the attribute the append path takes the number of rows already in the file from holds the rows of the data written"
+    hx = HandleExec(repo)
+    ps = [p for p in wr.params if not p.startswith("*")]
+    try:
+        if len(ps) < 2 or not wr.cls:
+            raise _GiveUp("write() has no data parameter")
+        entry = _HState({p: ("param", p) for p in ps[1:]})
+        exits = [s_ for s_, _ in hx.run_function(wr, entry, 0)]
+    except (_GiveUp, RecursionError) as e:
+        chk.ob(R, ka, None, wr.where(), "%s: the write path was not followed (%s)" % (what_a, e))
+        return
+    data = ("param", ps[1])
+    appends = [(s_, [e for e in s_.ev if e[0] == "count"][-1]) for s_ in exits if any(e[0] == "count" for e in s_.ev)]
+    firsts = [s_ for s_ in exits if any(e[0] == "header" for e in s_.ev) and not any(e[0] == "count" for e in s_.ev)]
+    where_a = (hx.sink_where.get(_COUNT_SINK) or wr).where()
+    if not appends:
+        chk.ob(R, ka, None, wr.where(), "%s: no path through write() that calls %s was found" % (what_a, _COUNT_SINK))
+        return
+    verdicts, sources = [], set()
+    for st, evn in appends:
+        T = evn[1]
+        c0, m = lin(T)
+        olds = [a_ for a_ in m if a_[0] == "old"]
+        if _has_unknown(T) or ("*",) in st.att:
+            verdicts.append((None, "the number handed to %s, %s, was not followed" % (_COUNT_SINK, showh(T))))
+            continue
+        if not olds:
+            verdicts.append((False, "the number handed to %s, %s, does not include the rows already in the file (nothing kept on the handle enters it)" % (_COUNT_SINK, showh(T))))
+            continue
+        if len(olds) != 1 or m[olds[0]] != 1:
+            verdicts.append((None, "the number handed to %s, %s, is not <one count kept on the handle> + <rows added>" % (_COUNT_SINK, showh(T))))
+            continue
+        L = olds[0][1]
+        sources.add(L)
+        rest = {a_: k for a_, k in m.items() if a_ != olds[0]}
+        rows = [a_ for a_, k in rest.items() if k == 1 and _rows_of(a_, data)]
+        if len(rest) == 1 and rows and c0 == 0:
+            pass
+        elif (len(rest) == 1 and rows) or not rest:
+            verdicts.append((False, "the number handed to %s, %s, is not <rows already in the file> + <rows of the data appended>" % (_COUNT_SINK, showh(T))))
+            continue
+        else:
+            verdicts.append((None, "what is added to the count kept on the handle in %s was not recognised as the rows of the data (%s.size / len(%s))" % (showh(T), ps[1], ps[1])))
+            continue
+        final = hx.cur(st, L)
+        if ("k*", L[1]) in st.att or _has_unknown(final):
+            verdicts.append((None, "what %s holds when write() returns was not followed" % _show_loc(L)))
+        elif lin(final) == lin(T):
+            verdicts.append((True, "%s = %s" % (_show_loc(L), showh(final))))
+        elif final == ("old", L) and L not in st.att:
+            verdicts.append((False, "%s is handed %s but %s is not assigned on this path: it still holds the count from before this append, so the next append of the session "
+                             "puts a SIZE line that leaves out the rows of this one" % (_COUNT_SINK, showh(T), _show_loc(L))))
+        else:
+            verdicts.append((False, "%s is handed %s but %s is left holding %s: the next append of the session starts from a count that is not the rows in the file" % (
+                _COUNT_SINK, showh(T), _show_loc(L), showh(final))))
+    vs = [v for v, _ in verdicts]
+    ok = False if False in vs else (None if None in vs else True)
+    txt = "; ".join(sorted({t for v, t in verdicts if v is ok}))
+    chk.ob(R, ka, ok, where_a, "%s -- %s" % (what_a, txt))
+    if not sources:
+        return
+    where_f = (hx.sink_where.get(_HEADER_SINK) or wr).where()
+    if not firsts:
+        chk.ob(R, kf, None, wr.where(), "%s: no path through write() that writes a header (%s) and does not update the count was found" % (what_f, _HEADER_SINK))
+        return
+    verdicts = []
+    for st in firsts:
+        for L in sorted(sources):
+            final = hx.cur(st, L)
+            if ("*",) in st.att or ("k*", L[1]) in st.att or _has_unknown(final):
+                verdicts.append((None, "what %s holds after the first write was not followed" % _show_loc(L)))
+            elif _rows_of(final, data):
+                verdicts.append((True, "%s = %s" % (_show_loc(L), showh(final))))
+            elif final == ("old", L):
+                verdicts.append((False, "%s is not assigned on the path that writes the header: the first append then adds its rows to whatever the handle held before, not to the rows of the first write" % _show_loc(L)))
+            else:
+                c0, m = lin(final)
+                rows = [a_ for a_, k in m.items() if k == 1 and _rows_of(a_, data)]
+                if len(m) == 1 and rows and c0 != 0:
+                    verdicts.append((False, "%s is left holding %s after a first write of %s rows" % (_show_loc(L), showh(final), showh(rows[0]))))
+                else:
+                    verdicts.append((None, "%s holds %s after the first write: not recognised as the rows of the data" % (_show_loc(L), showh(final))))
+    vs = [v for v, _ in verdicts]
+    ok = False if False in vs else (None if None in vs else True)
+    chk.ob(R, kf, ok, where_f, "%s -- %s" % (what_f, "; ".join(sorted({t for v, t in verdicts if v is ok}))))
 
 
 # ---------------------------------------------------------------------------
